@@ -91,6 +91,51 @@ def _inline_helpers(fn, helpers):
     return fn
 
 
+def _none_sentinel_exprs(fn):
+    """N11b: `X = E if G else None` (E a name bound just before, G a test on E) with later tests `X is not None` / `X is None`:
+    X becomes E itself (the definition of E is renamed to X) and the tests become G / not G with X for E."""
+    for blk in list(_blocks(fn)):
+        for k, s in enumerate(list(blk)):
+            if not (isinstance(s, ast.Assign) and len(s.targets) == 1 and isinstance(s.targets[0], ast.Name) and
+                    isinstance(s.value, ast.IfExp) and isinstance(s.value.orelse, ast.Constant) and s.value.orelse.value is None and
+                    isinstance(s.value.body, ast.Name)):
+                continue
+            X, E, G = s.targets[0].id, s.value.body.id, s.value.test
+            if E not in {n.id for n in ast.walk(G) if isinstance(n, ast.Name)}:
+                continue
+            defs = [d for d in blk[:k] if isinstance(d, ast.Assign) and len(d.targets) == 1 and norm(d.targets[0]) == E]
+            uses = [n for n in ast.walk(fn) if isinstance(n, ast.Name) and n.id == E]
+            in_stmt = [n for n in ast.walk(s) if isinstance(n, ast.Name) and n.id == E]
+            if len(defs) != 1 or len(uses) != 1 + len(in_stmt):
+                continue
+            rest = blk[k + 1:]
+            if any(isinstance(n, ast.Name) and n.id == X and isinstance(n.ctx, ast.Store) for r in rest for n in ast.walk(r)):
+                continue
+            G2 = _Subst({E: ast.Name(id=X, ctx=ast.Load())}).visit(copy.deepcopy(G))
+
+            class T(ast.NodeTransformer):
+                def visit_Compare(self, node):
+                    if len(node.ops) == 1 and isinstance(node.left, ast.Name) and node.left.id == X and \
+                            isinstance(node.comparators[0], ast.Constant) and node.comparators[0].value is None:
+                        if isinstance(node.ops[0], ast.IsNot):
+                            return _loc(copy.deepcopy(G2), node)
+                        if isinstance(node.ops[0], ast.Is):
+                            return _loc(ast.UnaryOp(op=ast.Not(), operand=copy.deepcopy(G2)), node)
+                    return self.generic_visit(node)
+            defs[0].targets[0] = _loc(ast.Name(id=X, ctx=ast.Store()), defs[0].targets[0])
+            blk.remove(s)
+            for j in range(len(blk)):
+                if blk[j] is not defs[0]:
+                    blk[j] = T().visit(blk[j])
+            # tests in enclosing / following blocks
+            for b2 in _blocks(fn):
+                if b2 is not blk:
+                    for j in range(len(b2)):
+                        b2[j] = T().visit(b2[j])
+    ast.fix_missing_locations(fn)
+    return fn
+
+
 def _none_sentinels(fn):
     """N11: `if G: ... else: X = None` with X an operand of G, and later tests `X is not None` / `X is None`: the name is a
     sentinel for the outcome of G.  The else branch is dropped and the tests are replaced by G / not G (X is otherwise only
@@ -139,6 +184,7 @@ def normalise(fnode, helpers=None):
     if helpers:
         fn = _inline_helpers(fn, {k: v for k, v in helpers.items() if k != fn.name})
     fn = _none_sentinels(fn)
+    fn = _none_sentinel_exprs(fn)
     # ---- N3: shape aliases
     stores = _stores(fn)
     alias = {}
